@@ -1,4 +1,5 @@
-"""Replay of the C17 adapter-layer finding against the real `trust-debug` binary over DAP stdio.
+"""Regression replay of the (fixed, d5a9ac8) C17 adapter-layer finding against the real `trust-debug`
+binary over DAP stdio.  What follows describes the behaviour BEFORE the fix.
 
 Witness (known_findings.json, id C17-adapter-stale-generation): at a breakpoint stop the client sends
 `continue` and `setBreakpoints` (same file, same lines) back to back.  When the next breakpoint is
@@ -7,8 +8,9 @@ hit while the `setBreakpoints` is being handled, the stop carries the previous b
 the runtime: no `stopped` event, a `pause` request is answered "pause ignored (already paused)", and
 `stackTrace` shows the thread at the next breakpoint.
 
-The interleaving is a real race, so the replay retries; not reproducing it is not a failure (the
-check then simply does not print the KNOWN-FINDING line).  Every wait has a timeout and the adapter
+The interleaving is a real race, so the replay retries.  Since the fix, the runtime being still
+parked on the stop makes the coordinator emit it: a reproduction is reported by checks/c17.py as a
+VIOLATION (regression); not reproducing it is the expected outcome.  Every wait has a timeout and the adapter
 process is killed at the end."""
 import json
 import os
